@@ -142,9 +142,9 @@ NUM_MUT = [
     ("trail-85", lambda s: s + "\x85"), ("trail-a0", lambda s: s + "\xa0"), ("lead-a0", lambda s: "\xa0" + s),
     ("sup2", lambda s: s + "\xb2"), ("arabic-digit", lambda s: "\xd9\xa5"), ("empty", lambda s: ""),
     ("inner-sp", lambda s: s[:1] + " " + s[1:] if s else " "), ("list", lambda s: s + ", " + s),
-    ("list-conflict", lambda s: s + ", " + str(int(s or "0", 16) + 1) if all(c in "0123456789abcdefABCDEF" for c in s) and s else s + ",1"),
+    ("list-conflict", lambda s: s + ", " + str(int(s or "0", 16) + 1) if all(c in "0123456789abcdefABCDEF" for c in s) and 0 < len(s) <= 200 else s + ",1"),
     ("huge", lambda s: "1" + "0" * 4400), ("dot", lambda s: s + ".0"), ("exp", lambda s: s + "e0"),
-    ("trail-lf", lambda s: s + "\n"), ("trail-cr", lambda s: s + "\r"), ("plus1", lambda s: str(int(s or "0", 16) + 1) if all(c in "0123456789abcdefABCDEF" for c in s) and s else "1"),
+    ("trail-lf", lambda s: s + "\n"), ("trail-cr", lambda s: s + "\r"), ("plus1", lambda s: str(int(s or "0", 16) + 1) if all(c in "0123456789abcdefABCDEF" for c in s) and 0 < len(s) <= 200 else "1"),
 ]
 CRLF_MUT = [("lf", lambda s: "\n"), ("cr", lambda s: "\r"), ("crcrlf", lambda s: "\r\r\n"), ("lfcr", lambda s: "\n\r"),
             ("lflf", lambda s: "\n\n"), ("none", lambda s: ""), ("sp-crlf", lambda s: " \r\n")]
